@@ -1327,8 +1327,6 @@ class ModelGen:
             for txt, fn in (("%s", lambda i: i), ("%s+1", lambda i: i + 1), ("%s-1", lambda i: i - 1),
                             ("2*%s", lambda i: 2 * i), ("2*%s-1", lambda i: 2 * i - 1),
                             ("%d-%%s" % (length + 1), lambda i: length + 1 - i)):
-                if not values and txt != "%s":
-                    continue    # empty loop with a computed subscript: known finding C11-F4, own stream
                 if all(1 <= fn(i) <= length for i in values):
                     out.append(txt % idx)
             return out
